@@ -148,7 +148,17 @@ class LetSubstitution:
     def mutations(self, node):
         if len(node) <= 2:
             return []
+        bound = get_bound_symbols(node)
         for var in node[1]:
+            if len(var) != 2 or not var[0].is_leaf():
+                continue
+            # Substitution is purely structural. Avoid variable capture: the
+            # symbol must not be bound a second time within this term, and
+            # the substituted term must not mention any symbol bound here.
+            if bound.count(var[0]) > 1:
+                continue
+            if any(n in bound for n in nodes.dfs(var[1])):
+                continue
             if any(n == var[0] for n in nodes.dfs(node[2])):
                 subs = nodes.substitute(node[2], {var[0]: var[1]})
                 yield Simplification({node.id: Node(node[0], node[1], subs)},
